@@ -5,7 +5,7 @@ from spec import idt as SI
 from ..bits import BV, TOP, lit, b_not
 from ..interp import State, Unsupported
 from ..values import UNIT, Array, Enum, Opaque, Ptr, Ref, Struct
-from .common import (dtp_layout, asm_not_pure, is_call_of, U8, adt, arg_obj, bv, enum_val, eval_bv, eval_value, fn_site, inner, same, sl, _env_of, admits)
+from .common import (refutes_canonical, dtp_layout, asm_not_pure, is_call_of, U8, adt, arg_obj, bv, enum_val, eval_bv, eval_value, fn_site, inner, same, sl, _env_of, admits)
 
 LEVEL = 'proof'
 IDT = 'structures::idt::InterruptDescriptorTable'
@@ -38,7 +38,7 @@ def run(chk):
     chk.guard('table', 'Default', lambda: is_call_of(chk, chk.I, 'table', '<%s as core::default::Default>::default' % IDT, IDT + '::new', 'InterruptDescriptorTable::default() is new()'))
     chk.guard('entry', 'Entry::eq', lambda: entry_eq(chk))
     chk.guard('layout', 'lidt operand', lambda: dtp_layout(chk))
-    chk.guard('asm-options', 'lidt / cs read', lambda: asm_not_pure(chk, chk.I, 'asm-options', ['src/instructions/tables.rs', 'src/instructions/segmentation.rs'], 20))
+    chk.guard('asm-options', 'lidt / cs read', lambda: asm_not_pure(chk, chk.I, 'asm-options', ['src/instructions/tables.rs', 'src/instructions/segmentation.rs'], 2))
     chk.floor('obligations', len(chk.obs), 900)
 
 
@@ -181,6 +181,7 @@ def slices(chk, lay):
             for a in starts:
                 st = State()
                 st.mem[('arg', 'self')] = Opaque('idt')
+                st.rng['b'] = [(0, 255)]       # the end bound is a u8
                 rv = mk(st, BV.const(8, a or 0), BV.sym(8, 'b'))
                 outs = I.run(fn_, [Ref(('arg', 'self')), rv], st)
                 n += 1
@@ -192,6 +193,9 @@ def slices(chk, lay):
                         break
                     continue
                 if not rets:
+                    if lower == 256 and ek == 'exc' and outs:
+                        # (Excluded(255), Excluded(b)): no u8 end bound makes a range starting after vector 255 valid - every path panics
+                        continue
                     bad = ('start %s: no returning path' % a, outs)
                     break
                 for o in rets:
@@ -211,7 +215,13 @@ def slices(chk, lay):
                     else:
                         want = (1 if ek == 'inc' else 0) - first
                         af = I.aff_of(o.st, e)
-                        okend = af is not None and af.norm(64).key() == __import__('x86abs.bits', fromlist=['Aff']).Aff({('b', 0, 8): 1}, want).norm(64).key()
+                        wantaff = __import__('x86abs.bits', fromlist=['Aff']).Aff({('b', 0, 8): 1}, want)
+                        # equal as forms, or equal on this path (the path may have pinned `b`, e.g. an empty range at the top vector)
+                        okend = af is not None and (af.norm(64).key() == wantaff.norm(64).key() or I.aff_equal(o.st, I.exact_aff(o.st, I.norm(o.st, e)), wantaff))
+                        if not okend:
+                            wb = I.norm(o.st, I.resub(o.st, BV.sym(8, 'b')))
+                            ev_ = I.norm(o.st, I.resub(o.st, e))
+                            okend = wb.is_const() and ev_.is_const() and ev_.value() == wb.value() + want
                     if not okend:
                         bad = ('start %s: slice ends at element %r, expected end bound%s - 32' % (a, e, ' + 1' if ek == 'inc' else ''), outs)
                         break
@@ -335,7 +345,7 @@ def entry(chk):
         chk.ob('entry', 'set_handler_fn<%s> stores the handler address' % fty['s'].replace('structures::idt::', ''), ok,
                'paths %r' % (outs,), fn_site(I, n))
         chk.ob('entry', 'set_handler_fn<%s> panics only for a non-canonical address' % fty['s'].replace('structures::idt::', ''),
-               len(pan) <= 1 and all(any('eq(' in str(nn[0]) and nn[1] == 0 for nn in o.st.notes) for o in pan), 'panic paths %r' % ([o.st.notes for o in pan],))
+               all(refutes_canonical(I, o, BV.sym(64, 'addr(handler)')) for o in pan), 'panic paths %r' % ([o.st.notes for o in pan],))
 
     # ---- missing()
     outs = I.run(ENTRY + '::<F>::missing', [])
@@ -485,7 +495,7 @@ def table(chk, lay):
         chk.ob('table', '%s executes one `lidt` on {limit 4095, base = address of the table}' % meth, okl, detail, fn_site(I, IDT + '::' + meth))
         pan = [o for o in outs if o.kind != 'ret']
         chk.ob('table', '%s panics only if the table address is not canonical' % meth,
-               len(pan) <= 1 and all(any('eq(' in str(nn[0]) and nn[1] == 0 for nn in o.st.notes) for o in pan), 'panic notes %r' % ([o.st.notes for o in pan],))
+               all(refutes_canonical(I, o, BV.sym(64, 'addr(arg:self)')) for o in pan), 'panic notes %r' % ([o.st.notes for o in pan],))
 
 
 def entry_eq(chk):
